@@ -344,6 +344,9 @@ executeProcess:
 			if err == nil {
 				p.State.Set(state.Executing)
 				p.ExitNum, err = fork.Execute(fn.Block)
+			} else {
+				// the fork never runs, so nothing else releases its FID
+				GlobalFIDs.Deregister(fork.Id)
 			}
 		}
 
